@@ -143,4 +143,151 @@ def algClasses : List String := (classes.filter (fun k => k.module != "base")).m
 /-- the classes whose `m` is NOT guarded (what the C15 model takes as its `unguarded` list) -/
 def unguarded (m : String) : List String := algClasses.filter (fun c => !guarded c m)
 
+/-! ## The picking dialog (support/sel_from_plot.py): event connections, instance state, hand-over tuple
+
+Queries over the `d*` tables of `Generated/Wiring.lean`.  A row counts for the dialog variant `plot`
+("SSI" / "pLSCF" / "FDD") when every branch condition on the way to it holds for `self.plot = plot`; a condition that
+is not a test of `self.plot` against string constants (or a loop / try around the row) makes the answer `none`, and
+every obligation built on it false. -/
+
+def dlg : String := "SelFromPlot"
+
+/-- value of a branch test when `self.plot == plot` (`and` / `or` short-circuit as in Python) -/
+def Gen.Cond.eval (plot : String) : Cond → Option Bool
+  | .plotIn vs => some (vs.contains plot)
+  | .plotEq v => some (plot == v)
+  | .not c => (c.eval plot).map (!·)
+  | .and a b => match a.eval plot with
+    | some true => b.eval plot
+    | some false => some false
+    | none => none
+  | .or a b => match a.eval plot with
+    | some true => some true
+    | some false => b.eval plot
+    | none => none
+  | .opaque _ => none
+
+/-- is a statement under the nested branch conditions `path` executed for this variant -/
+def pathActive (plot : String) : List Cond → Option Bool
+  | [] => some true
+  | c :: cs => match c.eval plot with
+    | some true => pathActive plot cs
+    | some false => some false
+    | none => none
+
+/-- the rows with a decided, true path; `none` as soon as one row is undecided -/
+def activeRows {α : Type} (cond : α → List Cond) (plot : String) : List α → Option (List α)
+  | [] => some []
+  | r :: rs => match pathActive plot (cond r), activeRows cond plot rs with
+    | some true, some l => some (r :: l)
+    | some false, some l => some l
+    | _, _ => none
+
+def dmethod (m : String) : Option DMethod := dmethods.find? (fun k => k.cls == dlg && k.name == m)
+
+/-- what a method of the dialog does, read off its parameter count, body text (parameters renamed positionally) and the
+    attributes of `self` it writes — so that a handler is identified by its behaviour, not by its name -/
+inductive Role where
+  | press | release | clickStab | clickFdd | closing | other
+deriving DecidableEq, Repr
+
+def roleOf (m : DMethod) : Role :=
+  if !m.decorators.isEmpty then .other
+  else if m.params.length == 1 && m.body == "if $1.key == 'shift': {self.shift_is_held = True}" then .press
+  else if m.params.length == 1 && m.body == "if $1.key == 'shift': {self.shift_is_held = False}" then .release
+  else if m.params.length == 2 && m.selfCalls.contains "get_closest_pole" && !m.selfCalls.contains "get_closest_freq"
+      && m.writes.contains "sel_freq" && m.writes.contains "pole_ind" && !m.writes.contains "freq_ind"
+      && !m.writes.contains "shift_is_held" && !m.writes.contains "result" then .clickStab
+  else if m.params.length == 1 && m.selfCalls.contains "get_closest_freq" && !m.selfCalls.contains "get_closest_pole"
+      && m.writes.contains "sel_freq" && m.writes.contains "freq_ind" && !m.writes.contains "pole_ind"
+      && !m.writes.contains "shift_is_held" && !m.writes.contains "result" then .clickFdd
+  else if m.params.isEmpty && m.body == "self.root.quit(); self.root.destroy()" then .closing
+  else .other
+
+def roleOfName (m : String) : Role := match dmethod m with | some k => roleOf k | none => .other
+
+/-- the canvas of the dialog's figure: `self.fig.canvas`, or the `FigureCanvasTkAgg(self.fig, self.root)` object
+    (constructing it installs it as `self.fig.canvas`) held in a local variable -/
+def isFigCanvas (r : String) : Bool :=
+  r == "self.fig.canvas" || r == "<FigureCanvasTkAgg(self.fig, self.root)>" || r == "<FigureCanvasTkAgg(self.fig, master=self.root)>"
+
+/-- the event connections in force for the variant -/
+def connectionsFor (plot : String) : Option (List DConnect) :=
+  activeRows (·.cond) plot (dconnects.filter (·.cls == dlg))
+
+/-- the handlers matplotlib calls for an event of the given name: role of the connected method and the expressions
+    its parameters receive (`<event>` = the event object), in signature order.  `none` if a connection of the variant
+    is undecided, sits on another canvas, or its handler is not a method of the dialog (directly or through a
+    `lambda … : self.m(…)`). -/
+def dispatch (plot event : String) : Option (List (Role × List String)) :=
+  match connectionsFor plot with
+  | none => none
+  | some cs =>
+    let mpl := cs.filter (·.kind == "mpl_connect")
+    if mpl.all (fun c => isFigCanvas c.registry && c.handler != "") then
+      some ((mpl.filter (·.event == event)).map (fun c => (roleOfName c.handler, c.hbind.map (·.2))))
+    else none
+
+/-- the names of the canvas events the variant listens to -/
+def eventsOf (plot : String) : Option (List String) :=
+  (connectionsFor plot).map (fun cs => (cs.filter (·.kind == "mpl_connect")).map (·.event))
+
+/-- closing the window: what `WM_DELETE_WINDOW` of the root window is bound to -/
+def closeHandlers (plot : String) : Option (List (String × Role)) :=
+  (connectionsFor plot).map (fun cs => (cs.filter (·.kind != "mpl_connect")).map (fun c => (c.registry ++ ":" ++ c.event, roleOfName c.handler)))
+
+/-- position of the one unconditional call `callee(...)` in the method (none: absent, repeated or conditional) -/
+def callPos (method callee : String) : Option Nat :=
+  match dcalls.filter (fun c => c.cls == dlg && c.method == method && c.callee == callee) with
+  | [c] => if c.cond.isEmpty then some c.pos else none
+  | _ => none
+
+/-- `self.root.mainloop()` is called once in the whole class: unconditionally in `__init__` -/
+def mainloopPos : Option Nat :=
+  if (dcalls.filter (fun c => c.cls == dlg && c.callee == "self.root.mainloop")).length == 1 then callPos "__init__" "self.root.mainloop" else none
+
+/-- the methods that run while the dialog is being set up: `__init__` and the methods it calls before the main loop -/
+def setupMethods : List String :=
+  match mainloopPos with
+  | none => []
+  | some p => "__init__" :: ((dmethods.filter (fun m => m.cls == dlg && dcalls.any (fun c =>
+      c.cls == dlg && c.method == "__init__" && c.pos < p && c.callee == "self." ++ m.name))).map (·.name))
+
+/-- every event connection is made before the main loop starts: in `__init__` ahead of `mainloop()`, or in a method
+    `__init__` calls unconditionally ahead of it -/
+def connectsBeforeMainloop : Bool :=
+  match mainloopPos with
+  | none => false
+  | some p => (dconnects.filter (·.cls == dlg)).all (fun c =>
+      (c.method == "__init__" && c.pos < p) ||
+      (match callPos "__init__" ("self." ++ c.method) with | some q => q < p | none => false))
+
+/-- the value the variant's `__init__` (and the methods it calls during set-up) gives the attribute: exactly one
+    assignment in force, located in `__init__` before the main loop -/
+def initValue (plot attr : String) : Option String :=
+  match mainloopPos, activeRows (·.cond) plot (dassigns.filter (fun a => a.cls == dlg && setupMethods.contains a.method && a.target == "self." ++ attr)) with
+  | some p, some [a] => if a.method == "__init__" && a.pos < p then some a.value else none
+  | _, _ => none
+
+/-- the value handed over: `self.result` is assigned only in `__init__`, exactly once for the variant, AFTER the main
+    loop has returned (the handlers rebind `self.sel_freq` / `self.pole_ind`, so a tuple built earlier holds stale lists) -/
+def resultValue (plot : String) : Option String :=
+  let rs := dassigns.filter (fun a => a.cls == dlg && a.target == "self.result")
+  if rs.all (·.method == "__init__") && !(dmethods.any (fun m => m.cls == dlg && m.name != "__init__" && m.writes.contains "result")) then
+    match mainloopPos, activeRows (·.cond) plot rs with
+    | some p, some [a] => if p < a.pos then some a.value else none
+    | _, _ => none
+  else none
+
+/-- nothing of the dialog's state lives on the class: the class body binds methods only (no class attributes, no
+    bases, decorators or keywords that could supply shared state) -/
+def stateIsPerInstance : Bool :=
+  match dialogClasses.filter (·.name == dlg) with
+  | [k] => k.attrs.isEmpty && k.bases.isEmpty && k.extras.isEmpty && k.own.all (fun n => (dmethod n).isSome)
+      && (dmethods.filter (·.cls == dlg)).length == k.own.length
+  | _ => false
+
+/-- nothing is ever disconnected (the translator lists `mpl_disconnect` / `unbind` calls among the connections) -/
+def noDisconnect : Bool := dconnects.all (fun c => c.kind != "mpl_disconnect" && c.kind != "unbind" && c.kind != "unbind_all")
+
 end PV.Wiring
